@@ -267,6 +267,12 @@ pub fn frames(name: &str, cfg: &Cfg) -> Option<Vec<u8>> {
             let sid = if e.a_bidi > 0 { e.ab(0) } else if e.a_uni > 0 { e.au(0) } else { return None };
             b.stream_evil(sid, 1 << 40, 4, false);
         }
+        "sd-existing-reset-far" => {
+            // RESET_STREAM on a stream the honest application really uses, final size beyond every limit ever
+            // advertised (the victim may have asked to STOP_SENDING on it meanwhile: 3.2 "Recv" / stopping)
+            let sid = if e.a_bidi > 0 { e.ab(0) } else if e.a_uni > 0 { e.au(0) } else { return None };
+            b.reset(sid, 1 << 40);
+        }
         "sd-local-bidi-plus1" => {
             // the victim's own first bidirectional stream (receive window = its bidi_local window); only
             // meaningful once the victim opened it, otherwise this is a stream-state violation
